@@ -55,7 +55,8 @@ AsksAllMissing(asked, named, pooledBefore, offeredSoFar) == (named \ (pooledBefo
 \* the server turns the service's request into getdata to EVERY connected peer naming exactly those hashes
 PeerAskedExactly(gotByPeer, asked) == gotByPeer = asked
 
-\* a transaction of the proposal is available in a good copy / only in copies that fail verification
+\* a transaction of the proposal is available in a good copy / only in copies that fail verification (badOffered of
+\* SomeOnlyBad: copies that arrived AFTER the node asked for them - what arrives unasked and fails is simply dropped)
 AllGood(named, pooledBefore, goodOffered, badOffered) ==
     /\ \A t \in named : t \in pooledBefore \/ t \in goodOffered
     /\ \A t \in named : t \notin badOffered
